@@ -14,7 +14,7 @@ ENCODED_SITES = {("clone", "fetch_add"), ("strong_count", "load"), ("count", "lo
 CONSTRUCTOR_NEW = {"new", "try_allocate_for_layout", "new_uninit"}
 
 
-def dump_mir():
+def dump_mir(features=("--features", "std")):
     """Fresh MIR dump of /repo's working tree (release-like: debug assertions and overflow checks off)."""
     os.makedirs(MIRDIR, exist_ok=True)
     tdir = os.path.join(MIRDIR, "t-%d" % os.getpid())
@@ -22,7 +22,7 @@ def dump_mir():
     out = os.path.join(MIRDIR, "triomphe-%d.mir" % os.getpid())
     env = dict(os.environ, CARGO_TARGET_DIR=tdir, CARGO_NET_OFFLINE="true")
     env.pop("RUSTFLAGS", None)
-    cmd = ["cargo", "+nightly", "rustc", "--offline", "--lib", "--no-default-features", "--features", "std", "--",
+    cmd = ["cargo", "+nightly", "rustc", "--offline", "--lib", "--no-default-features"] + list(features) + ["--",
            "-Zunpretty=mir", "-Zmir-include-spans=off", "-C", "debug-assertions=off", "-C", "overflow-checks=off"]
     with open(out, "w") as f, open(out + ".err", "w") as ef:
         p = subprocess.run(cmd, cwd=REPO, env=env, stdout=f, stderr=ef)
@@ -71,15 +71,29 @@ def family(prop, tier):
             for y in (RD, ["clone", "read", "drop", "drop"], x):
                 add("conv", [x, y])
         add("conv3", [conv[0], RD, RD])
+        # copy-on-write releases a reference too (the old allocation loses this owner without a plain drop)
+        for y in (RD, ["drop"], ["clone", "read", "drop", "drop"]):
+            add("cow", [["make_mut_write", "read", "drop"], y])
+        add("cow3", [["read", "make_mut_write", "drop"], RD, RD])
         if tier == "thorough":
-            progs += [["read", "read", "drop"], ["count", "read", "drop"], ["clone", "clone", "drop", "read", "drop", "drop"]]
+            progs += [["read", "read", "drop"], ["count", "read", "drop"], ["clone", "clone", "drop", "read", "drop", "drop"],
+                      ["clone", "read", "drop", "clone", "read", "drop", "drop"]]
             for a, b in itertools.combinations_with_replacement(range(len(progs)), 2):
                 add(f"2t:{a}{b}", [progs[a], progs[b]])
-            for c in itertools.combinations_with_replacement(range(5), 3):
+            for c in itertools.combinations_with_replacement(range(6), 3):
                 add("3t:" + "".join(map(str, c)), [progs[i] for i in c])
-            for c in [(1, 1, 1, 1), (0, 1, 1, 2), (0, 0, 1, 1), (1, 1, 1, 2)]:
+            for c in [(1, 1, 1, 1), (0, 1, 1, 2), (0, 0, 1, 1), (1, 1, 1, 2), (0, 1, 2, 3), (1, 1, 2, 2), (0, 0, 0, 2)]:
                 add("4t:" + "".join(map(str, c)), [progs[i] for i in c])
             add("spawn-chain", [["clone", "give", "read", "drop"], ["clone", "give", "read", "drop"], RD], {1: (0, 0), 2: (1, 0)})
+            add("spawn3", [["clone", "give", "clone", "give", "clone", "give", "drop"], RD, RD, ["clone", "read", "drop", "drop"]],
+                {1: (0, 0), 2: (0, 2), 3: (0, 4)})
+            for x in conv:
+                for y, z in itertools.combinations_with_replacement([RD, ["drop"], ["clone", "read", "drop", "drop"], conv[0], conv[1]], 2):
+                    add("conv3", [x, y, z])
+            add("conv4", [conv[0], conv[1], RD, RD])
+            add("3 scoped cloners", [["read", "drop"], ["bclone", "drop"], ["bclone", "read", "drop"], ["bread", "bclone", "drop"]],
+                {1: (0, -1), 2: (0, -1), 3: (0, -1)}, {1: (0, 1), 2: (0, 1), 3: (0, 1)})
+            add("scoped + owner clone", [["clone", "read", "drop", "drop"], ["bclone", "read", "drop"], RD], {1: (0, -1)}, {1: (0, 2)})
     elif prop == "C03":
         owner = [["get_mut_write", "drop"], ["get_mut_write", "get_mut_write", "drop"], ["read", "get_mut_write", "drop"]]
         others = [RD, ["drop"], ["clone", "read", "drop", "drop"]]
@@ -96,6 +110,9 @@ def family(prop, tier):
             add("3 pollers", [owner[0], owner[0], owner[2]])
             add("4t", [owner[1], RD, RD, ["drop"]])
             add("poll3", [["get_mut_write", "get_mut_write", "get_mut_write", "drop"], RD])
+            add("4t-b", [owner[2], RD, ["clone", "read", "drop", "drop"], ["drop"]])
+            add("4 pollers", [owner[0], owner[0], owner[0], owner[0]])
+            add("poll vs convert", [owner[1], ["read", "try_unwrap"], ["read", "unwrap_or_clone"]])
     elif prop == "C08":
         owner = [["make_mut_write", "read", "drop"], ["read", "make_mut_write", "drop"], ["make_mut_write", "make_mut_write", "drop"]]
         others = [RD, ["drop"], ["clone", "read", "drop", "drop"]]
@@ -110,6 +127,8 @@ def family(prop, tier):
                     add("3t", [o, x, y])
             add("3 writers", [owner[0], owner[0], owner[1]])
             add("4t", [owner[0], RD, RD, ["drop"]])
+            add("4 writers", [owner[0], owner[0], owner[1], owner[2]])
+            add("writer vs convert", [owner[0], ["read", "try_unwrap"], ["get_mut_write", "drop"]])
     elif prop == "C09":
         ops = [["try_unwrap"], ["unwrap_or_clone"], ["try_unique_drop"], ["drop"], ["read", "try_unwrap"], ["read", "unwrap_or_clone"], RD]
         for a, b in itertools.combinations_with_replacement(range(len(ops)), 2):
@@ -120,6 +139,9 @@ def family(prop, tier):
             for c in itertools.combinations_with_replacement(range(len(ops)), 3):
                 add("3t:" + "".join(map(str, c)), [ops[i] for i in c])
             add("4t", [ops[0], ops[0], ops[1], ops[3]])
+            add("4t-b", [ops[4], ops[5], ops[2], ops[6]])
+            add("4 unwrappers", [ops[0], ops[0], ops[0], ops[0]])
+            add("clone then unwrap", [["clone", "drop", "try_unwrap"], ["read", "unwrap_or_clone"], ops[2]])
     return uniq(S)
 
 
@@ -205,12 +227,13 @@ def run(prop, tier, spec):
         return res
     # counter accesses outside the encoded functions cannot be ignored silently
     foreign = []
+    visited = getattr(mirsym.extract, "visited", set())
     for fn, what in sites:
         leaf = fn.split("::")[-1]
         if what == "new" and leaf in CONSTRUCTOR_NEW:
             continue
-        if (leaf, what) in ENCODED_SITES:
-            continue
+        if (leaf, what) in ENCODED_SITES or fn in visited:
+            continue   # inside a function whose MIR is part of a template
         foreign.append(f"{fn}: {what}")
     if foreign:
         res["inconclusive"].append({"error": "counter accessed outside the functions Engine W encodes (not covered by the "
